@@ -332,13 +332,16 @@ pub fn native_open_candidates(
         }
     };
     let full = if lev > 0 { n * d / lev } else { 0 };
+    // a fresh open or an increase: the margin re-derived from the floored notional (what the engine books), or the
+    // margin as named in the call (they differ by at most one unit, with fractional leverage)
+    let plain = if full == margin { vec![full + fees] } else { vec![full + fees, margin + fees] };
     let p = match w.pos_at(va, t) {
         Some(p) if !p.size.is_zero() => p,
-        _ => return vec![full + fees],
+        _ => return plain,
     };
     let same = (p.direction == Direction::AddToAmm) == buy;
     if same {
-        return vec![full + fees];
+        return plain;
     }
     let pn: u128 = w
         .q::<Uint128, _>(
